@@ -40,7 +40,11 @@ RULE = (
     'effects, extra etas, transformed etas, other error models, absorption models) + one extension with integer-coded '
     'arguments (parameter, covariate, effect incl. custom strings, operation, eta form, eta subset, occasion column, '
     'distribution, reference value, error-model options data_trans / zero_protection / eps subset / dv, number of '
-    'transits) + input point index and data row index. Before/after models are evaluated at the same point (new '
+    'transits) + input point index and data row index; add_iiv also as ONE call with 2-3 parameters and per-parameter (unequal) '
+    'expression / operation / eta-name lists, which must equal the single-parameter calls one after the other (random + enumerated); '
+    'sub-check error_multidv applies 2-3 error-model setters one after the other to the DVs (dv argument None/1/2) of the '
+    'multi-DV corpus models (every ordered pair of basic setters x DV order is enumerated), each step must give the documented '
+    'form on its DV and leave the other DV alone. Before/after models are evaluated at the same point (new '
     'thetas/etas get generated values) and related by the formula documented in the docstring. Non-trivial = the target '
     'parameter already carries an eta or covariate effect or is piecewise / defined in several statements, or the model '
     'came from >= 1 prior transformation (error: the previous error model is not the plain single-epsilon one or a prior '
@@ -1872,7 +1876,7 @@ def _enum_multidv(tier):
 
 SUBCHECKS = [
     SubCheck('covariate', lambda: COV_SPEC, run_covariate, quick=400, thorough=12000),
-    SubCheck('variability', lambda: VAR_SPEC, run_variability, quick=700, thorough=15000, enumerate=_enum_variability),
+    SubCheck('variability', lambda: VAR_SPEC, run_variability, quick=600, thorough=15000, enumerate=_enum_variability),
     SubCheck('error', lambda: ERR_SPEC, run_error, quick=550, thorough=15000),
     SubCheck('error_multidv', lambda: MDV_SPEC, run_error_multidv, quick=150, thorough=4000, enumerate=_enum_multidv),
     SubCheck('transit_absorption', lambda: ABS_SPEC, run_transit_absorption, quick=300, thorough=8000),
